@@ -94,6 +94,25 @@ structure SColl where
   kind : CKind
   xs : List V
   dirty : Bool
+  /-- a list too long to materialise: `n` copies of `v` (`xs` is unused then). Only the operations
+  in `repOps` are answered for such a handle; the generator emits no others. -/
+  rep : Option (Nat × V) := none
+
+def SColl.len (s : SColl) : Nat := match s.rep with
+  | some (n, _) => n
+  | none => s.xs.length
+
+def SColl.getAt (s : SColl) (i : Nat) : Option V := match s.rep with
+  | some (n, v) => if i < n then some v else none
+  | none => s.xs[i]?
+
+/-- lengths from which `repeat` is kept symbolic on the spec side. -/
+def repThreshold : Nat := 2 ^ 22
+
+/-- operations that read a collection handle but are not answered for a symbolic one. -/
+def collReadOps : List String :=
+  ["tovec", "iter", "iterfrom", "getmut", "cow", "push", "bulk", "bulkcap", "popslow", "itercow", "levels",
+   "lvnodes", "tovector", "tolist", "rebase", "rebasenew", "ssz", "sszifok", "wf", "ser", "treeof"]
 
 structure STree where
   xs : List V
@@ -165,11 +184,32 @@ def specRoot (w : World) (s : SColl) : Hh × Std.HashMap ByteArray ByteArray :=
     | .vector => Spec.vectorRoot E' alg w.cfg.N s.xs
   (r, cache)
 
+/-- SSZ root of the list made of `n` copies of `v`, computed without materialising it: a subtree of
+depth `d` whose chunks are `a` copies of the full chunk `F`, then possibly one partial chunk `T`,
+then zero chunks. -/
+def specRepRoot (E : Elem V Hh) (N n : Nat) (v : V) : Hh :=
+  let pfk := E.pf.getD 1
+  let F : Hh := match E.pf with
+    | some k => E.packHash (List.replicate k v)
+    | none => E.leafHash v
+  let a := n / pfk
+  let tail : Option Hh := if n % pfk = 0 then none else some (E.packHash (List.replicate (n % pfk) v))
+  let depth := Spec.limitDepth (Spec.chunkLimit E N)
+  let fullAt (d : Nat) : Hh := (List.range d).foldl (fun h _ => alg.h2 h h) F
+  let zeroAt (d : Nat) : Hh := (List.range d).foldl (fun h _ => alg.h2 h h) zero32
+  let rec go : Nat → Nat → Hh
+    | 0, a => if a ≥ 1 then F else (tail.getD zero32)
+    | d + 1, a =>
+      if a ≥ 2 ^ d then alg.h2 (fullAt d) (go d (a - 2 ^ d))
+      else alg.h2 (go d a) (zeroAt d)
+  mixIn (go depth a) n
+
 /-- independent SSZ decoder for the spec side: accepts exactly the canonical encodings. -/
 def specDecode (E : Elem V Hh) (bs : List UInt8) : Option (List V) :=
   match E.fixedLen with
   | some k =>
-    if k = 0 ∨ bs.length % k ≠ 0 then none
+    if bs.isEmpty then some []     -- (the empty list, whatever the item size)
+    else if k = 0 ∨ bs.length % k ≠ 0 then none
     else
       let n := bs.length / k
       let items := (List.range n).map (fun i => ByteArray.mk ((bs.drop (i*k)).take k).toArray)
@@ -310,6 +350,16 @@ def step (w : World) (line : String) : World × Out :=
   let cfg := w.cfg
   let words := (line.trimAscii.toString.splitOn " ").filter (· ≠ "")
   let badop : World × Out := (w, ("bad-op", "bad-op"))
+  let isRep (h : String) : Bool := match h.toNat? with
+    | some k => (match slotGet w.scolls k with | some s => s.rep.isSome | none => false)
+    | none => false
+  -- symbolic (very long) handles answer only a few operations
+  if (match words with
+      | op :: h :: rest => collReadOps.contains op && (isRep h ||
+          ((op = "rebase" || op = "rebasenew") && (match rest with | h2 :: _ => isRep h2 | [] => false)))
+        -- (the derived `==` walks both trees node by node: not answered for symbolic handles)
+        || (op = "eq" && (isRep h || (match rest with | h2 :: _ => isRep h2 | [] => false)))
+      | _ => false) then badop else
   -- helper: store a constructor result in slot `h` on both sides
   let storeNew (hs : Nat) (r : Except Err (Coll V × Heap Hh)) (spec : Option SColl) (specOut : String)
       : World × Out :=
@@ -328,11 +378,11 @@ def step (w : World) (line : String) : World × Out :=
       if k = "list" then
         let ok := vs.length ≤ cfg.N
         storeNew hs (Coll.tryFromIter pf z cfg vs w.heap)
-          (if ok then some ⟨.list, vs, false⟩ else none) (if ok then "ok" else "err *")
+          (if ok then some ⟨.list, vs, false, none⟩ else none) (if ok then "ok" else "err *")
       else if k = "vec" then
         let ok := vs.length = cfg.N
         storeNew hs (Coll.vectorNew pf z cfg vs w.heap)
-          (if ok then some ⟨.vector, vs, false⟩ else none)
+          (if ok then some ⟨.vector, vs, false, none⟩ else none)
           (if ok then "ok" else s!"err WrongVectorLength len={vs.length} expected={cfg.N}")
       else badop
     | _, _ => badop
@@ -342,11 +392,11 @@ def step (w : World) (line : String) : World × Out :=
       if k = "list" then
         let ok := vs.length ≤ cfg.N
         storeNew hs (Coll.tryFromIter pf z cfg vs w.heap)
-          (if ok then some ⟨.list, vs, false⟩ else none) (if ok then "ok" else "err *")
+          (if ok then some ⟨.list, vs, false, none⟩ else none) (if ok then "ok" else "err *")
       else if k = "vec" then
         let ok := vs.length = cfg.N
         storeNew hs (Coll.vectorFromIter pf z cfg vs w.heap)
-          (if ok then some ⟨.vector, vs, false⟩ else none) (if ok then "ok" else "err *")
+          (if ok then some ⟨.vector, vs, false, none⟩ else none) (if ok then "ok" else "err *")
       else badop
     | _, _ => badop
   | "fromiterslow" :: hs :: rest =>
@@ -354,21 +404,21 @@ def step (w : World) (line : String) : World × Out :=
     | some hs, some vs =>
       let ok := vs.length ≤ cfg.N
       storeNew hs (Coll.tryFromIterSlow pf z cfg vs w.heap)
-        (if ok then some ⟨.list, vs, false⟩ else none) (if ok then "ok" else "err *")
+        (if ok then some ⟨.list, vs, false, none⟩ else none) (if ok then "ok" else "err *")
     | _, _ => badop
   | ["empty", hs] =>
     match parseNat hs with
-    | some hs => storeNew hs (.ok (Coll.empty pf z cfg w.heap)) (some ⟨.list, [], false⟩) "ok"
+    | some hs => storeNew hs (.ok (Coll.empty pf z cfg w.heap)) (some ⟨.list, [], false, none⟩) "ok"
     | none => badop
   | ["default", hs, k] =>
     match parseNat hs with
     | some hs =>
       if k = "list" then
-        storeNew hs (.ok (Coll.empty pf z cfg w.heap)) (some ⟨.list, [], false⟩) "ok"
+        storeNew hs (.ok (Coll.empty pf z cfg w.heap)) (some ⟨.list, [], false, none⟩) "ok"
       else if k = "vec" then
         let dv := defaultValue E
         match Coll.vectorFromElem pf z cfg dv w.heap with
-        | .ok r => storeNew hs (.ok r) (some ⟨.vector, List.replicate cfg.N dv, false⟩) "ok"
+        | .ok r => storeNew hs (.ok r) (some ⟨.vector, List.replicate cfg.N dv, false, none⟩) "ok"
         | .error _ => (w, ("panic", "ok"))
       else badop
     | none => badop
@@ -377,20 +427,21 @@ def step (w : World) (line : String) : World × Out :=
     | some hs, some n, some v =>
       let ok := n ≤ cfg.N
       storeNew hs (Coll.repeat_ pf z cfg v n w.heap)
-        (if ok then some ⟨.list, List.replicate n v, false⟩ else none) (if ok then "ok" else "err *")
+        (if ok then some (if n > repThreshold then { kind := .list, xs := [], dirty := false, rep := some (n, v) }
+                          else ⟨.list, List.replicate n v, false, none⟩) else none) (if ok then "ok" else "err *")
     | _, _, _ => badop
   | ["repeatslow", hs, n, v] =>
     match parseNat hs, parseNat n, bytesOfHex v with
     | some hs, some n, some v =>
       let ok := n ≤ cfg.N
       storeNew hs (Coll.tryFromIter pf z cfg (List.replicate n v) w.heap)
-        (if ok then some ⟨.list, List.replicate n v, false⟩ else none) (if ok then "ok" else "err *")
+        (if ok then some ⟨.list, List.replicate n v, false, none⟩ else none) (if ok then "ok" else "err *")
     | _, _, _ => badop
   | ["fromelem", hs, v] =>
     match parseNat hs, bytesOfHex v with
     | some hs, some v =>
       storeNew hs (Coll.vectorFromElem pf z cfg v w.heap)
-        (some ⟨.vector, List.replicate cfg.N v, false⟩) "ok"
+        (some ⟨.vector, List.replicate cfg.N v, false, none⟩) "ok"
     | _, _ => badop
   | ["drop", hs] =>
     match parseNat hs with
@@ -400,14 +451,14 @@ def step (w : World) (line : String) : World × Out :=
     match parseNat hs with
     | some hs =>
       match slotGet w.colls hs, slotGet w.scolls hs with
-      | some c, some s => (w, (s!"ok {c.len}", s!"ok {s.xs.length}"))
+      | some c, some s => (w, (s!"ok {c.len}", s!"ok {s.len}"))
       | _, _ => badop
     | none => badop
   | ["isempty", hs] =>
     match parseNat hs with
     | some hs =>
       match slotGet w.colls hs, slotGet w.scolls hs with
-      | some c, some s => (w, (fmtBool c.isEmpty, fmtBool s.xs.isEmpty))
+      | some c, some s => (w, (fmtBool c.isEmpty, fmtBool (s.len == 0)))
       | _, _ => badop
     | none => badop
   | ["pending", hs] =>
@@ -425,7 +476,7 @@ def step (w : World) (line : String) : World × Out :=
         let f : Option V → String := fun o => match o with
           | some v => s!"some {hexOfBytes v}"
           | none => "none"
-        (w, (f (c.get pf i), f s.xs[i]?))
+        (w, (f (c.get pf i), f (s.getAt i)))
       | _, _ => badop
     | _, _ => badop
   | ["tovec", hs] =>
@@ -538,7 +589,8 @@ def step (w : World) (line : String) : World × Out :=
                   scolls := slotSet w.scolls hs { s with dirty := false } }, (m, "ok"))
       | _, _ => badop
     | none => badop
-  | "bulk" :: hs :: rest =>
+  | "bulkcap" :: hs :: _ :: rest | "bulk" :: hs :: rest =>
+    -- (`bulkcap h n …`: the capacity hint of a pre-sized map is not part of its meaning)
     match parseNat hs, rest.mapM parseKVE with
     | some hs, some kvs =>
       match slotGet w.colls hs, slotGet w.scolls hs with
@@ -570,9 +622,13 @@ def step (w : World) (line : String) : World × Out :=
             | .error e => fmtErr e
           let w1 := { w with heap := heap, colls := slotSet w.colls hs c' }
           let (s', sp) : SColl × String :=
-            if n > s.xs.length then ({ s with dirty := false },
-              s!"err OutOfBoundsIterFrom index={n} len={s.xs.length}")
-            else ({ s with xs := s.xs.drop n, dirty := false }, "ok")
+            if n > s.len then ({ s with dirty := false },
+              s!"err OutOfBoundsIterFrom index={n} len={s.len}")
+            else match s.rep with
+              | some (k, v) =>
+                if k - n > repThreshold then ({ s with rep := some (k - n, v), dirty := false }, "ok")
+                else ({ s with rep := none, xs := List.replicate (k - n) v, dirty := false }, "ok")
+              | none => ({ s with xs := s.xs.drop n, dirty := false }, "ok")
           ({ w1 with scolls := slotSet w1.scolls hs s' }, (m, sp))
       | _, _ => badop
     | _, _ => badop
@@ -669,7 +725,7 @@ def step (w : World) (line : String) : World × Out :=
             | .error e => (w, fmtErr e)
           let (w2, sp) : World × String :=
             if s.xs.length = cfg.N then
-              ({ w1 with scolls := slotSet w1.scolls h2 ⟨.vector, s.xs, false⟩ }, "ok")
+              ({ w1 with scolls := slotSet w1.scolls h2 ⟨.vector, s.xs, false, none⟩ }, "ok")
             else (w1, s!"err WrongVectorLength len={s.xs.length} expected={cfg.N}")
           (w2, (m, sp))
       | _, _ => badop
@@ -733,6 +789,7 @@ def step (w : World) (line : String) : World × Out :=
           | .ok (r, heap) => ({ w with heap := heap }, s!"ok {hexOfBytes r}")
           | .error e => (w, fmtErr e)
         if s.dirty then (w1, (m, "panic"))
+        else if let some (n, v) := s.rep then (w1, (m, s!"ok {hexOfBytes (specRepRoot E cfg.N n v)}"))
         else
           let (r, cache) := specRoot w s
           ({ w1 with leafCache := cache }, (m, s!"ok {hexOfBytes r}"))
@@ -745,7 +802,11 @@ def step (w : World) (line : String) : World × Out :=
       | some a, some b, some sa, some sb =>
         if sa.kind ≠ sb.kind then badop
         else
-          let sp := if sa.dirty || sb.dirty then "*" else fmtBool (decide (sa.xs = sb.xs))
+          let sp := if sa.dirty || sb.dirty then "*"
+            else match sa.rep, sb.rep with
+              | some (n, v), some (n', v') => fmtBool (n == n' && v == v')
+              | none, none => fmtBool (decide (sa.xs = sb.xs))
+              | _, _ => fmtBool (sa.len == sb.len && sa.len == 0)   -- different lengths (symbolic ones are long)
           (w, (fmtBool (a.beq b), sp))
       | _, _, _, _ => badop
     | _, _ => badop
@@ -777,7 +838,7 @@ def step (w : World) (line : String) : World × Out :=
                        else (if xs.length ≤ cfg.N then some xs else none)
           | none => none
         match spec with
-        | some xs => storeNew hs r (some ⟨if isVec then .vector else .list, xs, false⟩) "ok"
+        | some xs => storeNew hs r (some ⟨if isVec then .vector else .list, xs, false, none⟩) "ok"
         | none => storeNew hs r none "err *"
     | _, _ => badop
   | ["ser", hs] =>
@@ -801,12 +862,12 @@ def step (w : World) (line : String) : World × Out :=
       if k = "list" then
         let ok := vs.length ≤ cfg.N
         match mapErr (Coll.tryFromIter pf z cfg vs w.heap) with
-        | .ok r => storeNew hs (.ok r) (if ok then some ⟨.list, vs, false⟩ else none) (if ok then "ok" else "err *")
+        | .ok r => storeNew hs (.ok r) (if ok then some ⟨.list, vs, false, none⟩ else none) (if ok then "ok" else "err *")
         | .error _ => (w, ("err serde", if ok then "ok" else "err *"))
       else if k = "vec" then
         let ok := vs.length = cfg.N
         match mapErr (Coll.vectorFromIter pf z cfg vs w.heap) with
-        | .ok r => storeNew hs (.ok r) (if ok then some ⟨.vector, vs, false⟩ else none) (if ok then "ok" else "err *")
+        | .ok r => storeNew hs (.ok r) (if ok then some ⟨.vector, vs, false, none⟩ else none) (if ok then "ok" else "err *")
         | .error _ => (w, ("err serde", if ok then "ok" else "err *"))
       else badop
     | _, _ => badop
@@ -835,7 +896,7 @@ def step (w : World) (line : String) : World × Out :=
                        else (if xs.length ≤ cfg.N then some xs else none)
           | none => none
         match spec with
-        | some xs => storeNew hs r (some ⟨if isVec then .vector else .list, xs, false⟩) "ok"
+        | some xs => storeNew hs r (some ⟨if isVec then .vector else .list, xs, false, none⟩) "ok"
         | none => storeNew hs r none "err *"
     | none => badop
   | ["sszifok", hs, hex] =>
@@ -882,12 +943,12 @@ def step (w : World) (line : String) : World × Out :=
       if k = "list" then
         let ok := svs.length ≤ cfg.N
         match mapErr (Coll.tryFromIter pf z cfg vs w.heap) with
-        | .ok r => storeNew hs (.ok r) (if ok then some ⟨.list, svs, false⟩ else none) (if ok then "ok" else "err *")
+        | .ok r => storeNew hs (.ok r) (if ok then some ⟨.list, svs, false, none⟩ else none) (if ok then "ok" else "err *")
         | .error _ => (w, ("err serde", if ok then "ok" else "err *"))
       else if k = "vec" then
         let ok := svs.length = cfg.N
         match mapErr (Coll.vectorFromIter pf z cfg vs w.heap) with
-        | .ok r => storeNew hs (.ok r) (if ok then some ⟨.vector, svs, false⟩ else none) (if ok then "ok" else "err *")
+        | .ok r => storeNew hs (.ok r) (if ok then some ⟨.vector, svs, false, none⟩ else none) (if ok then "ok" else "err *")
         | .error _ => (w, ("err serde", if ok then "ok" else "err *"))
       else badop
     | none => badop
@@ -916,7 +977,7 @@ def step (w : World) (line : String) : World × Out :=
                     sbuilders := slotSet w.sbuilders b ⟨acc, d, l⟩ }, ("ok", "*"))
         | .error e => (w, (fmtErr e, "*"))
     | _, _, _ => badop
-  | "dump" :: rest =>
+  | "dumpi" :: rest | "dump" :: rest =>
     match rest.mapM parseNat with
     | some hsl =>
       match hsl.mapM (fun hs => slotGet w.colls hs) with
